@@ -593,6 +593,13 @@ func (fv *FuncVC) havocModifies(fc *FuncContract, env *Env, pre *State) {
 	penv := *env
 	penv.st = pre
 	byHeap, order := fv.clausesByHeap(&penv, fc.Modifies)
+	if _, ok := byHeap["ghost:$brk"]; !ok && !fc.Trusted {
+		// any verified callee may allocate: the watermark moves up by an unknown amount
+		old := fv.ghostVal(fv.cur, "$brk")
+		nb := fv.freshConst("g.brk", SInt)
+		fv.assumeHere(le(old, nb))
+		fv.cur.ghost["$brk"] = nb
+	}
 	for _, hn := range order {
 		if strings.HasPrefix(hn, "ghost:") {
 			g := strings.TrimPrefix(hn, "ghost:")
@@ -653,6 +660,9 @@ func (fv *FuncVC) callModifies(ci ssa.CallInstruction) (heaps []string, ghosts [
 	}
 	if fc == nil {
 		return
+	}
+	if !fc.Trusted {
+		ghosts = append(ghosts, "$brk")
 	}
 	_, order := fv.clausesByHeap(fv.dummyEnv(fc), fc.Modifies)
 	for _, hn := range order {
